@@ -532,6 +532,23 @@ def real_der(last_byte):
     return bytes([0x30, 0x44, 0x02, 0x20]) + r + bytes([0x02, 0x20]) + s
 
 
+def real_der_len(last_byte, total):
+    """a real, valid DER signature of exactly `total` bytes (10..72) whose final byte is `last_byte`; 33-byte integers carry the
+    leading 00 of a value with its top bit set (so 72 bytes = r and s both >= 2^255), shorter ones start below 0x80"""
+    total = max(10, min(72, total))
+    s_len = min(33, total - 6 - 2)
+    r_len = total - 6 - s_len
+    if r_len > 33:
+        r_len, s_len = 33, total - 6 - 33
+
+    def integer(n, last=None):
+        body = ([0x00] + [0x91] * 32) if n == 33 else [0x11] * n
+        if last is not None:
+            body[-1] = last
+        return bytes([0x02, n]) + bytes(body)
+    return bytes([0x30, 4 + r_len + s_len]) + integer(r_len) + integer(s_len, last_byte)
+
+
 def q_der(env, name=None):
     """Signature::from_der_impl: a valid DER string parses to that signature whatever its last byte is; DER ++ flag parses to the DER part
     for every SigHash value; SighashSignature::{to,from}_bytes_impl keep signature and flag.  DER validity is an uninterpreted predicate."""
@@ -589,14 +606,23 @@ def q_der(env, name=None):
                 continue
             m = se.s.model()
             lb = bv_val(m, c.last)
-            if "followed by" in what:
-                inp = real_der(0x22) + bytes([lb])
-                want = real_der(0x22)
-            else:
-                inp = real_der(lb)
-                want = inp
-            nat = native_sig({"op": "der_roundtrip", "bytes": inp.hex()})
-            item = {"message": f"from_der: {what} (last byte {lb:#04x})", "request": {"tx": {"version": 1, "locktime": 0, "inputs": [], "outputs": []}, "ops": [{"op": "der_roundtrip", "bytes": inp.hex()}]}, "op_index": 0, "expected": want.hex(), "native": nat}
+            # the model's own length first (a deviation may depend on it, e.g. only the 72-byte form), then the other DER lengths
+            try:
+                n_model = bv_val(m, c.preL) + 1
+            except Exception:
+                n_model = 70
+            item = None
+            for total in [n_model, 70, 72, 71, 69, 40, 10]:
+                if "followed by" in what:
+                    want = real_der_len(0x22, total - 1) if total != 70 else real_der(0x22)
+                    inp = want + bytes([lb])
+                else:
+                    inp = real_der_len(lb, total) if total != 70 else real_der(lb)
+                    want = inp
+                nat = native_sig({"op": "der_roundtrip", "bytes": inp.hex()})
+                item = {"message": f"from_der: {what} (last byte {lb:#04x})", "request": {"tx": {"version": 1, "locktime": 0, "inputs": [], "outputs": []}, "ops": [{"op": "der_roundtrip", "bytes": inp.hex()}]}, "op_index": 0, "expected": want.hex(), "native": nat}
+                if any(v.get("ok") != want.hex() for v in nat.values()):
+                    break
             if any(v.get("ok") != want.hex() for v in nat.values()):
                 qr.violations.append(item)
             else:
